@@ -206,11 +206,9 @@ func (m *monitor) step(mode string, fl flagset, o *obs) verdict {
 		m.unknownAll()
 		return v
 	}
-	if o.Crashed {
-		v.Inconc = append(v.Inconc, "CLI crashed (C16's business): "+firstLine(o.Stderr))
-		m.unknownAll()
-		return v
-	}
+	// A crash is judged like any other failing exit: "the cached copy ran with
+	// exit 0" is not met by a panic, and a panic that ran nothing breaks no
+	// safety clause. (Crashes as such are C16's business.)
 	if o.badTrace {
 		v.Inconc = append(v.Inconc, "unparseable trace: "+o.Trace)
 		m.unknownAll()
